@@ -65,7 +65,7 @@ func caseGen() *rapid.Generator[Case] {
 		for i := 0; i < n; i++ {
 			kind := rapid.IntRange(0, 11).Draw(t, "kind")
 			if kind == 10 {
-				c.Acts = append(c.Acts, Act{K: "restyle", Style: rapid.SampledFrom(append(append([]string{}, TextStyles...), "nope", "utf8-lihgt")).Draw(t, "restyle"), Reuse: rapid.Bool().Draw(t, "by-object")})
+				c.Acts = append(c.Acts, Act{K: "restyle", Style: rapid.SampledFrom(append(append([]string{}, TextStyles...), "nope", "utf8-lihgt")).Draw(t, "restyle"), Reuse: rapid.Bool().Draw(t, "by-object"), I: rapid.SampledFrom([]int{0, 0, 1}).Draw(t, "on-copy")})
 			} else if kind == 11 {
 				// a style that names nothing: the render fails, every time the same way, and changes nothing
 				c.Acts = append(c.Acts, Act{K: "render", Style: rapid.SampledFrom(UnknownStyles).Draw(t, "unknown-style"), Reuse: rapid.Bool().Draw(t, "reuse")})
